@@ -103,7 +103,9 @@ func c2Gen(r *rand.Rand, tier string, mode string) any {
 			s.Root = r.Intn(2) == 0
 			in.Ops = append(in.Ops, c2Op{Op: "span", S: s})
 		}
-		if r.Intn(3) == 0 {
+		// a span of an already decided trace arriving while stress relief is active (record present),
+		// and - for traces never seen before - with no record at all
+		if r.Intn(3) == 0 || (mode == "c04" && r.Intn(2) == 0) {
 			in.Ops = append(in.Ops, c2Op{Op: "stress", S: span(i)})
 		}
 	}
